@@ -25,7 +25,7 @@ def gen_base(rng, sid, family="base", n=None, q=None, refresh="auto", pop=None, 
     pop = rng.random() < 0.25 if pop is None else pop
     nclients = clients if clients is not None else rng.choice([1, 1, 2, 3])
     cfg = {"q": q, "refresh": refresh, "pop": pop, "notifier": rng.random() < 0.7, "width": rng.choice([120, 160, 200]),
-           "delay": False, "outfault": 0, "ctx": False, "autotoo": False, "narrow": False}
+           "delay": False, "outfault": 0, "ctx": False, "autotoo": False, "narrow": False, "uwg": nclients > 1 and rng.random() < 0.25}
     progs = [[] for _ in range(nclients)]
     ncols = [rng.choice([0, 1, 1, 2]), rng.choice([0, 0, 1])]
     bars = []
@@ -42,6 +42,8 @@ def gen_base(rng, sid, family="base", n=None, q=None, refresh="auto", pop=None, 
             op["nopop"] = True
         if rng.random() < 0.3:
             op["prio"] = rng.randint(-2, 4)
+        if rng.random() < 0.15:
+            op["id"] = rng.randint(0, 2)   # explicit ids, likely to collide with each other and with default ids
         if ext and rng.random() < 0.2:
             op["ext"] = rng.randint(1, 2)
             op["extrev"] = rng.random() < 0.3
@@ -185,6 +187,10 @@ def gen_base(rng, sid, family="base", n=None, q=None, refresh="auto", pop=None, 
             cfg["outfault"] = rng.randint(1, 3)
         else:
             victim["fault"] = {"kind": kind, "at": rng.randint(1, 4)}
+            if kind == "ext":
+                victim["extrev"] = rng.random() < 0.5
+            if kind == "fill" and rng.random() < 0.25:
+                victim["fault"] = {"kind": "fill", "at": 0, "when": "C"}   # the first frame drawn after the bar has completed
             if kind == "fill" and rng.random() < 0.3:
                 victim["fault"]["at"] = -rng.randint(1, 3)   # the k-th Fill after the done channel is closed (the final frames)
     if allow_stop and rng.random() < 0.8:
@@ -227,6 +233,10 @@ def gen_base(rng, sid, family="base", n=None, q=None, refresh="auto", pop=None, 
                     "budget": 0, "bias": rng.choice([[], [], ["dp:send"], ["fmt:send"], ["hm:req"], ["cl:"], ["rg:start"],
                                                       ["bar:exit"], ["dist:"], ["er:"]])},
           "stats": False}
+    if rng.random() < 0.08:
+        # the clients (and Wait's own cancellation) run ahead of the container and time passes only when nothing else can move
+        sc["sched"]["bias"] = ["ct:", "hm:", "rg:", "er:", "bar:", "dist:", "fmt:", "dp:", "ls:tick"]
+        sc["sched"]["tickw"] = -1
     return sc
 
 
@@ -339,6 +349,52 @@ def family(name, rng, sid):
                 for key in ("pre", "app"):
                     if rng.random() < 0.6:
                         o.setdefault(key, []).append(decor_spec(rng, True))
+        return sc
+    if name == "uwg":
+        # a user wait group (WithWaitGroup): the first client only creates the bars and waits, the workers finish them and
+        # call Done at once - Wait must still see every bar through its last frames (removal, popping)
+        sc = gen_base(rng, sid, "uwg", n=rng.randint(2, 4), clients=rng.choice([2, 3]))
+        sc["cfg"]["uwg"] = True
+        prog0 = sc["clients"][0]
+        w = next(i for i, o in enumerate(prog0) if o["op"] == "wait")
+        for o in prog0[:w]:
+            if o["op"] == "add" and not sc["cfg"]["pop"] and rng.random() < 0.6:
+                o["rm"] = True
+        moved = [o for o in prog0[:w] if o["op"] in ("incr", "abort", "settotal", "setcur", "trigger", "barwait")]
+        prog0[:w] = [o for o in prog0[:w] if not any(o is m for m in moved)]
+        for c in range(1, len(sc["clients"])):   # a worker does not wait for a bar it may have to finish itself later on
+            sc["clients"][c][:] = [o for o in sc["clients"][c] if o["op"] != "barwait"]
+        if rng.random() < 0.6:
+            # the clients (and Wait's own cancellation) run ahead of the container: the last frames are still to come
+            sc["sched"]["bias"] = ["ct:", "hm:", "rg:", "er:", "bar:", "dist:", "fmt:", "dp:", "ls:tick"]
+            sc["sched"]["tickw"] = -1   # and time passes only when nothing else can move
+        home = {}                                   # all the work on one bar that came from the first client goes to one worker
+        for o in moved:
+            if o["op"] == "barwait":
+                continue
+            c = home.setdefault(o["b"], rng.randrange(1, len(sc["clients"])))
+            wk = sc["clients"][c]
+            k = next((i for i, x in enumerate(wk) if x["op"] == "wait"), len(wk))
+            wk.insert(k, o)
+        return sc
+    if name == "overtall":
+        # more rows than the row limit of a non-terminal output: the topmost bars are clipped in every frame, yet they
+        # finish, hand over to their successors and leave like any other bar; rows are not judged (cfg.narrow)
+        sc = gen_base(rng, sid, "overtall", n=rng.randint(2, 4), allow_queue=True, ext=False)
+        w = next(i for i, o in enumerate(sc["clients"][0]) if o["op"] == "wait")
+        adds = [o for o in sc["clients"][0][:w] if o["op"] == "add"]
+        free = [o for o in adds if not o.get("after")]
+        big = free[-1]
+        big["ext"] = rng.randint(120, 124)
+        big.pop("rm", None)
+        big["total"] = 50   # it stays to the end: its finisher comes last
+        sc["cfg"]["width"] = 120
+        sc["cfg"]["narrow"] = True
+        prog = sc["clients"][0]
+        for c in range(len(sc["clients"])):
+            sc["clients"][c][:] = [o for o in sc["clients"][c] if not (o.get("b") == big["b"] and o["op"] in ("incr", "setcur", "settotal", "trigger", "abort", "barwait"))]
+        w = next(i for i, o in enumerate(prog) if o["op"] == "wait")
+        prog.insert(w, {"op": "incr", "b": big["b"], "n": 50})
         return sc
     if name == "none":
         return gen_base(rng, sid, "none", refresh="none", allow_stop=rng.random() < 0.3)
